@@ -106,3 +106,27 @@ Example g_example :
   option_map abs (fold_left step_gen [Ins 10; Ins 20; Ins 10; Ins 40; Rem 30; Rem 10; Ins 7] (M_FastSet_new 100))
   = Some [40; 20; 7]%nat.
 Proof. vm_compute. reflexivity. Qed.
+
+(* impl Display for FastSet: when the first `size` cells of `elem` exist (the representation invariant), the printer
+   never panics, never fails and only appends to the formatter's buffer *)
+Lemma g_fs_fmt_loop s l f : (forall i, In i l -> (N.to_nat i < length (FastSet_elem s))%nat) ->
+  exists out, FastSet_fmt_loop1 l s f = Some (LoopDone (f ++ out)).
+Proof.
+  revert f. induction l as [|i l IH]; intros f Hl; cbn [FastSet_fmt_loop1].
+  - exists []. rewrite app_nil_r. reflexivity.
+  - destruct (nth_error (FastSet_elem s) (N.to_nat i)) as [x|] eqn:E.
+    + cbn [bind]. destruct (IH (f ++ [32%N] ++ i32_to_string (Z.of_N x))) as (out & Eo).
+      { intros j Hj. apply Hl. right. exact Hj. }
+      rewrite Eo. rewrite <- ?app_assoc. eexists. reflexivity.
+    + apply nth_error_None in E. specialize (Hl i (or_introl eq_refl)). exfalso. apply (Nat.lt_irrefl (N.to_nat i)).
+      eapply Nat.lt_le_trans; [exact Hl|exact E].
+Qed.
+Lemma g_fs_fmt_total s f : (N.to_nat (FastSet_size s) <= length (FastSet_elem s))%nat ->
+  exists out, M_FastSet_fmt s f = Some (f ++ out, Ok tt).
+Proof.
+  intros H. unfold M_FastSet_fmt, FastSet_fmt.
+  destruct (g_fs_fmt_loop s (map N.of_nat (seq (N.to_nat 0) (N.to_nat (FastSet_size s) - N.to_nat 0))) (f ++ [123%N])) as (out & E).
+  { intros i Hi. apply in_map_iff in Hi as (k & Ek & Hk). apply in_seq in Hk. subst i. rewrite Nat2N.id.
+    change (N.to_nat 0) with 0%nat in Hk. rewrite Nat.sub_0_r in Hk. eapply Nat.lt_le_trans; [apply Hk|exact H]. }
+  rewrite E. cbn [bind]. rewrite <- ?app_assoc. eexists. reflexivity.
+Qed.
